@@ -101,7 +101,7 @@ CATALOGUE = [
     ("advance-reads-clock-before-lock", "C12", "progress.py", "        with self._lock:\n            current_time = self.get_time()\n            task = self._tasks[task_id]\n            completed_start = task.completed", "        current_time = self.get_time()\n        with self._lock:\n            task = self._tasks[task_id]\n            completed_start = task.completed"),
     ("update-link-keeps-definition", "C06", "style.py", "        style._ansi = self._ansi\n        style._style_definition = None\n        style._color = self._color", "        style._ansi = self._ansi\n        style._style_definition = self._style_definition\n        style._color = self._color"),
     ("empty-print-bypasses-hooks", "C10", "console.py", "        if not objects:\n            objects = (NewLine(),)\n", "        if not objects:\n            self.line()\n            return\n"),
-    ("crlf-line-lost", "C19", "ansi.py", "        line = line.rstrip(\"\\r\").rsplit(\"\\r\", 1)[-1]", "        line = line.rsplit(\"\\r\", 1)[-1]"),
+    ("crlf-line-lost", "C19", "ansi.py", "        line = line.rstrip(\"\\r\")\n        for token in _ansi_tokenize(line):", "        for token in _ansi_tokenize(line):"),
     ("add-column-no-backfill", "C07", "table.py", "        for _ in self.rows:\n            column._cells.append(Text(\"\"))\n        self.columns.append(column)", "        self.columns.append(column)"),
     ("panel-title-keeps-justify", "C08", "panel.py", "            title_text.justify = None\n", ""),
     ("split-drops-nonblank-last-piece", "C05", "text.py", "        if not allow_blank and text.endswith(separator) and not lines[-1].plain:", "        if not allow_blank and text.endswith(separator):"),
